@@ -138,6 +138,9 @@ func isSeq(l []int, n int) bool {
 func oracle(sp *Spec, o *Obs, min int) []string {
 	var bad []string
 	np, nc := len(sp.Pods), len(sp.Ctrs)
+	if !o.Usable && (o.Outcome == "delivered" || o.Outcome == "failed") {
+		bad = append(bad, fmt.Sprintf("after the registration (%s) the runtime's plugin-sync lock was not released: BlockPluginSync() still blocked after %d s, no further plugin can register", o.Outcome, o.UsableBoundS))
+	}
 	switch o.Outcome {
 	case "delivered":
 		var ps, cs []int
@@ -179,7 +182,7 @@ func oracle(sp *Spec, o *Obs, min int) []string {
 	case "crashed":
 		bad = append(bad, "the runtime process crashed during synchronisation: "+firstLine(o.Crash))
 	case "stalled":
-		bad = append(bad, fmt.Sprintf("synchronisation neither completed nor failed within %v", caseTimeout))
+		bad = append(bad, fmt.Sprintf("synchronisation neither completed nor failed: after %d accepted message(s) the runtime sent nothing and reported nothing for %d s (still inside synchronize, holding the plugin-sync lock)", len(o.Msgs), o.StallS))
 	default:
 		bad = append(bad, "unknown outcome "+o.Outcome)
 	}
@@ -279,11 +282,13 @@ func coqCase(sp *Spec, o *Obs) string {
 		out = "ODelivered"
 	case "failed":
 		out = "OFailed"
+	case "stalled":
+		out = "OStalled"
 	}
 	return fmt.Sprintf("{| sc_wp := %s; sc_wc := %s; sc_hdr := %d%%Z; sc_more := %d%%Z; sc_limit := %d%%Z; sc_stub := %s; sc_script := %s; sc_nupd := %d%%Z; "+
-		"sc_msgs := %s; sc_outcome := %s; sc_calls := %d%%Z; sc_hpods := %s; sc_hctrs := %s; sc_upd := %s; sc_active := %s |}",
+		"sc_msgs := %s; sc_outcome := %s; sc_calls := %d%%Z; sc_hpods := %s; sc_hctrs := %s; sc_upd := %s; sc_active := %s; sc_usable := %s |}",
 		zweights(o.WP), zweights(o.WC), o.Hdr, o.MoreCost, o.Limit, coqBool(sp.Plugin == "stub"), coqScript(sp), sp.NUpd,
-		ms, out, o.HandlerCalls, zpairs(o.HandlerPodRuns), zpairs(o.HandlerCtrRuns), zlist(o.GotUpd), coqBool(o.Active))
+		ms, out, o.HandlerCalls, zpairs(o.HandlerPodRuns), zpairs(o.HandlerCtrRuns), zlist(o.GotUpd), coqBool(o.Active), coqBool(o.Usable))
 }
 
 // ---------------------------------------------------------------- workers
@@ -391,10 +396,13 @@ func runOne(chp **child, sp *Spec) result {
 	}
 	ch := *chp
 	var js []byte
+	bound := stallBound()
 	if sp.Resync != nil {
-		js, _ = json.Marshal(map[string]interface{}{"resync": sp.Resync.compact()})
+		js, _ = json.Marshal(map[string]interface{}{"resync": sp.Resync.compact(), "stall_s": int(bound.Seconds())})
 	} else {
-		js, _ = json.Marshal(compact(sp))
+		cs := compact(sp)
+		cs.StallS = int(bound.Seconds())
+		js, _ = json.Marshal(cs)
 	}
 	if _, err := ch.in.Write(append(js, '\n')); err != nil {
 		ch.kill()
@@ -420,6 +428,12 @@ func runOne(chp **child, sp *Spec) result {
 		if err := json.Unmarshal(line, &reply); err != nil {
 			return result{herr: "bad worker reply: " + err.Error()}
 		}
+		if (reply.Obs != nil && reply.Obs.Exit) || (reply.RObs != nil && reply.RObs.Exit) {
+			// the worker saw the stall itself, reported what it had measured and is exiting
+			atomic.AddInt32(&stalls, 1)
+			ch.kill()
+			*chp = nil
+		}
 		if reply.RObs != nil {
 			return result{robs: reply.RObs}
 		}
@@ -427,28 +441,31 @@ func runOne(chp **child, sp *Spec) result {
 			return result{herr: "worker: " + reply.Error}
 		}
 		return result{obs: reply.Obs}
-	case <-time.After(stallBound()):
+	case <-time.After(caseTimeout + bound):
+		// backstop: the worker itself no longer answers (it reports a stalled synchronisation on its own)
 		atomic.AddInt32(&stalls, 1)
 		ch.kill()
 		*chp = nil
-		return result{obs: &Obs{Outcome: "stalled", Msgs: []Msg{}}}
+		return result{obs: &Obs{Outcome: "stalled", StallS: int((caseTimeout + bound).Seconds()), Msgs: []Msg{}}}
 	}
 }
 
-// stalls counts cases that neither completed nor failed.  The first stall is given the full caseTimeout (it
-// must not be a slow machine); once synchronisation has been seen to hang, later cases are given a minute,
-// and after three stalls twenty seconds: a tree that livelocks is reported in minutes, not after the driver
-// time-out.
+// stalls counts cases in which the runtime's synchronize neither returned nor sent anything for the stall
+// bound.  The bound is on silence, not on the duration of a case: a step of synchronize (encode a message,
+// have it rejected or answered, recalculate) takes milliseconds, 0.1 s for tens of MiB.  The first stall
+// is given 90 s of silence (it must not be a slow machine); once synchronisation has been seen to hang,
+// later cases get 30 s, after three stalls 15 s: a tree that livelocks is reported in minutes, not after
+// the driver time-out.
 var stalls int32
 
 func stallBound() time.Duration {
 	switch n := atomic.LoadInt32(&stalls); {
 	case n == 0:
-		return caseTimeout
+		return 90 * time.Second
 	case n < 3:
-		return 60 * time.Second
+		return 30 * time.Second
 	default:
-		return 20 * time.Second
+		return 15 * time.Second
 	}
 }
 
@@ -784,7 +801,7 @@ func driveSync(c *hx.Ctx) error {
 		}
 		o := rs.obs
 		raw := map[string]interface{}{"stream": t.stream, "spec": compact(sp), "outcome": o.Outcome, "msgs": o.Msgs, "sync_err": o.SyncErr,
-			"handler_calls": o.HandlerCalls, "got_upd": o.GotUpd, "active": o.Active, "wp_rle": toRLE(o.WP), "wc_rle": toRLE(o.WC)}
+			"handler_calls": o.HandlerCalls, "got_upd": o.GotUpd, "active": o.Active, "usable": o.Usable, "wp_rle": toRLE(o.WP), "wc_rle": toRLE(o.WC)}
 		if sp.Signature != nil {
 			raw["signature"] = sp.Signature
 		}
@@ -816,7 +833,7 @@ func driveSync(c *hx.Ctx) error {
 		if o.Millis > maxMs {
 			maxMs, slowest = o.Millis, sp.Name
 		}
-		if o.Outcome == "crashed" || o.Outcome == "stalled" {
+		if o.Outcome == "crashed" || (o.Outcome == "stalled" && len(o.WP)+len(o.WC) != len(sp.Pods)+len(sp.Ctrs)) {
 			continue // nothing was measured: the Go oracle above is the record
 		}
 		sh := shards[t.stream]
@@ -835,13 +852,16 @@ func driveSync(c *hx.Ctx) error {
 			c.Sample(map[string]interface{}{"spec": compact(sp), "outcome": o.Outcome, "messages": chunkCounts(o)}, 6)
 		}
 	}
-	if split == 0 && os.Getenv("H_SYNC_ONLY") == "" {
+	// the target shapes are owed by the generator only while the implementation answers: on a tree where
+	// registrations stall or wedge the runtime the oracle failures above are the result
+	misbehaved := len(c.Stats.ImplFailures) > 0
+	if split == 0 && os.Getenv("H_SYNC_ONLY") == "" && !misbehaved {
 		c.HarnessError("no generated state needed more than one message")
 	}
-	if failed == 0 && os.Getenv("H_SYNC_ONLY") == "" {
+	if failed == 0 && os.Getenv("H_SYNC_ONLY") == "" && !misbehaved {
 		c.HarnessError("no generated state failed to synchronise")
 	}
-	if rtot.staleThenDelivered == 0 && (os.Getenv("H_SYNC_ONLY") == "" || os.Getenv("H_SYNC_ONLY") == "resync") {
+	if rtot.staleThenDelivered == 0 && !misbehaved && (os.Getenv("H_SYNC_ONLY") == "" || os.Getenv("H_SYNC_ONLY") == "resync") {
 		c.HarnessError("resync: no case in which a registration that failed after accepted chunks was followed by a completed one (%d cases)", rtot.cases)
 	}
 	c.Stats.Extra = map[string]interface{}{"cases": len(all), "synchronize_messages": totalMsgs, "split_cases": split, "failed_cases": failed,
